@@ -25,15 +25,18 @@ from .common import Failure, f2h, h2f, parse_reply, vec
 
 ID = "C14"
 BIN = "c14"
-PROOF_MODULES = ["Compute.Props.C14", "Compute.Props.C14Review"]
+PROOF_MODULES = ["Compute.Props.C14", "Compute.Props.C14Review", "Compute.Props.C14Predict"]
 REQUIRED_THEOREMS = ["Cv.C14.predict_spec", "Cv.C14.vandermonde_entry", "Cv.C14.fit_normal_equations",
                      "Cv.C14.fit_orthogonal", "Cv.C14.fit_minimal", "Cv.C14.fit_reproduces",
                      "Cv.C14R.distinct_imp_xtx_det_ne_zero", "Cv.C14R.poly_fit_total_distinct", "Cv.C14R.fit_reproduces_distinct",
-                     "Cv.C14R.repeated_abscissa_singular"]
+                     "Cv.C14R.repeated_abscissa_singular",
+                     "Cv.C14P.predict_length", "Cv.C14P.predict_pointwise", "Cv.C14P.predict_append"]
 RULE = ("degrees 0..6 x four abscissa layouts in [-2,2] (uniform, clustered, Chebyshev, integer/dyadic grid) x n from "
         "deg+1 to 2000 x responses = polynomial + noise at relative scales 0..1e6, exact-integer data, rank-deficient and "
         "mismatched inputs; replicated small-integer designs (levels in -3..3 with multiplicities, found by brute force) whose "
-        "X^T X has an exactly-zero entry with non-zero Cholesky fill-in; predict on coefficient lists of length 0..9 incl. special values; non-trivial = distinct "
+        "X^T X has an exactly-zero entry with non-zero Cholesky fill-in; predict (set-coefficient and after-fit routes) and fit on long "
+        "inputs of pairwise distinct abscissae covering every residue mod 8 (thorough: every length) in 256..300, 500..560, 1000..1040, "
+        "4090..4110 and 1999..2001, every output slot checked against the exact Horner value at its own abscissa; predict on coefficient lists of length 0..9 incl. special values; non-trivial = distinct "
         "(op, layout, degree, size class, noise class)")
 EXHAUSTIVE = {"quick": False, "thorough": False}
 NOT_PROVED = [
@@ -266,6 +269,10 @@ def corpus():
     xi = [-2.0, -1.0, 0.0, 1.0, 2.0, -2.0, 1.0]
     L.append("fit corpus:cubic 3 %s %s" % (vec(xi), vec([1.0 - 2.0 * v + 3.0 * v ** 3 for v in xi])))
     L.append("vander corpus:v 4 %s" % vec([2.0, -1.5, 0.0]))
+    # long inputs of predict whose length is not a multiple of 8: output slot i belongs to abscissa i, also in the tail
+    for n in (257, 1001):
+        xs = [-2.0 + 4.0 * ((i * 389) % n) / n for i in range(n)]      # distinct, scrambled
+        L.append("predict corpus:long:n%d %s %s" % (n, vec([1.0, -2.0, 0.5, 0.25]), vec(xs)))
     L.append("fit corpus:mismatch 1 %s %s" % (vec([1.0, 2.0, 3.0]), vec([1.0, 2.0])))
     # cubic regressor on the symmetric grid, even response 1 + x^2: c1 = c3 = 0 exactly, still 4 coefficients
     xg = [-2.0, -1.0, 0.0, 1.0, 2.0]
@@ -379,6 +386,59 @@ def gen_strata(rng, tier, cover):
     return L
 
 
+# ----------------------------------------------------------------------------- long inputs of predict / fit
+LONG_RANGES = [(256, 300), (500, 560), (1000, 1040), (4090, 4110)]
+LONG_EXTRA = [1999, 2000, 2001]      # the property's upper scope bound for fit
+
+
+def distinct_abscissae(rng, n):
+    """n pairwise distinct points of [-2, 2], in random order (a misplaced point is visible)"""
+    xs = [-2.0 + 4.0 * (i + rng.uniform(0.05, 0.95)) / n for i in range(n)]
+    return rng.shuffle(xs)
+
+
+def long_lines(rng, n, cover, routes=("predict", "fitpred", "fit")):
+    L = []
+    d = rng.randint(0, 6)
+    if "predict" in routes:      # coefficients set through the pub field
+        c = [rng.normal() * 10.0 ** rng.randint(-1, 1) for _ in range(d + 1)]
+        L.append("predict long:n%d:k%d %s %s" % (n, d + 1, vec(c), vec(distinct_abscissae(rng, n))))
+    if "fitpred" in routes:      # coefficients stored by fit, then predict on n points
+        m = d + 1 + rng.randint(0, 20)
+        x = layout(rng, "uniform", m)
+        c0 = [rng.normal() for _ in range(d + 1)]
+        y = [horner_f(c0, v) + 0.1 * rng.normal() for v in x]
+        L.append("fitpred long:n%d:d%d %d %s %s %s" % (n, d, d, vec(x), vec(y), vec(distinct_abscissae(rng, n))))
+    if "fit" in routes:          # fit itself on n points
+        dd = min(d, 4)
+        x = distinct_abscissae(rng, n)
+        c0 = [rng.normal() for _ in range(dd + 1)]
+        L.append("fit long:n%d:d%d %d %s %s" % (n, dd, dd, vec(x), vec([horner_f(c0, v) + 0.1 * rng.normal() for v in x])))
+    cover["long"] = cover.get("long", 0) + len(L)
+    return L
+
+
+def gen_long(rng, tier, cover):
+    L = []
+    if tier == "quick":
+        # every residue mod 8 in each range (8 consecutive lengths from a random start), alternating routes
+        for lo, hi in LONG_RANGES:
+            start = rng.randint(lo, hi - 7)
+            for j, n in enumerate(range(start, start + 8)):
+                L += long_lines(rng, n, cover, routes=(("predict",), ("fitpred",))[j % 2] if lo > 4000 else
+                                (("predict", "fit"), ("fitpred",))[j % 2])
+        for n in LONG_EXTRA + [255, 256, 257]:
+            L += long_lines(rng, n, cover)
+    else:
+        # every length of every range (all residues mod 8, 16 and 64 several times over)
+        for lo, hi in LONG_RANGES:
+            for n in range(lo, hi + 1):
+                L += long_lines(rng, n, cover, routes=("predict", "fitpred") if lo > 4000 else ("predict", "fitpred", "fit"))
+        for n in LONG_EXTRA + list(range(248, 256)):
+            L += long_lines(rng, n, cover)
+    return L
+
+
 def gen(rng, tier):
     cover = {}
     lines = []
@@ -401,6 +461,7 @@ def gen(rng, tier):
         kind = rng.choice(["uniform", "grid", "int"])
         lines.append("vander %s:n%d %d %s" % (kind, n, n, vec(layout(rng, kind, rng.randint(0, 10)))))
     lines += gen_strata(rng, tier, cover)
+    lines += gen_long(rng, tier, cover)
     rng.shuffle(lines)
     return lines, cover
 
@@ -520,7 +581,7 @@ def check_predict(coef, xs, pred):
     if not finite(coef):
         return None
     k = len(coef)
-    for v, r in zip(xs, pred):
+    for idx, (v, r) in enumerate(zip(xs, pred)):
         if not finite([v]):
             continue
         ex = sum(Fraction(c) * Fraction(v) ** i for i, c in enumerate(coef))
@@ -534,7 +595,7 @@ def check_predict(coef, xs, pred):
             if Fraction(r) != ex:
                 return "predict(%r) = %r, expected exactly %r = sum c_k x^k" % (v, r, float(ex))
         elif abs(Fraction(r) - ex) > Fraction((2 * k + 2) * EPS) * ab + Fraction(5e-324) * (2 * k + 2):
-            return "predict(%r) = %.17g, expected %.17g = sum c_k x^k (Horner allowance %.3g)" % (v, r, float(ex), float(Fraction((2 * k + 2) * EPS) * ab))
+            return "predict(x)[%d] of %d = %.17g, expected p(x[%d] = %r) = %.17g = sum c_k x^k (Horner allowance %.3g)" % (idx, len(xs), r, idx, v, float(ex), float(Fraction((2 * k + 2) * EPS) * ab))
     return None
 
 
